@@ -564,6 +564,9 @@ func (e *Env) evalCall(x *SExpr) Value {
 	case "streamlen":
 		need(1)
 		return specInt(UF("streamlen", SInt, identOf(arg(0))))
+	case "chanclosed":
+		need(1)
+		return specBool(Select(e.cur.heapArr("#chanclosed", SBool), arg(0).L[0]))
 	case "nilerr":
 		need(0)
 		return Value{T: errorType, L: []*Term{Int(0), Int(0)}}
